@@ -839,8 +839,8 @@ out:
 }
 
 /* ------------------------------------------------------------------ the alphabet */
-enum { OP_PUT, OP_DUP, OP_DEL, OP_LINKED, OP_EXT, OP_COMP, OP_APPEND, OP_VS, OP_VSAPPEND, OP_VG, OP_VGADD, OP_GR, OP_SD, OP_SDAPPEND, OP_AN, OP_REOPEN, OP_SYNC, OP_VSRENAME, OP_NOPS };
-static const char *OPN[] = {"put", "dup", "del", "linked", "ext", "comp", "append", "vs", "vsappend", "vg", "vgadd", "gr", "sd", "sdappend", "an", "reopen", "sync", "vsrename"};
+enum { OP_PUT, OP_DUP, OP_DEL, OP_LINKED, OP_EXT, OP_COMP, OP_APPEND, OP_VS, OP_VSAPPEND, OP_VG, OP_VGADD, OP_GR, OP_SD, OP_SDAPPEND, OP_AN, OP_REOPEN, OP_SYNC, OP_VSRENAME, OP_OVEREXT, OP_NOPS };
+static const char *OPN[] = {"put", "dup", "del", "linked", "ext", "comp", "append", "vs", "vsappend", "vg", "vgadd", "gr", "sd", "sdappend", "an", "reopen", "sync", "vsrename", "overext"};
 
 static int
 elem_exists(int r)
@@ -875,6 +875,8 @@ enum_ops(mc_op *out, int max)
                 }
         }
         ADD(OP_LINKED, r, 0);
+        if (g_kind[r] == 1) /* a linked-block element is overwritten from its middle and extended in one call */
+            ADD(OP_OVEREXT, r, 0);
         if (!elem_exists(r)) {
             ADD(OP_EXT, r, 0);
             ADD(OP_COMP, r, COMP_CODE_RLE);
@@ -1016,6 +1018,18 @@ apply(const mc_op *op)
                 return 2;
             if (g_kind[a0] == 3)
                 g_clen[a0] += a1;
+            break;
+        case OP_OVEREXT:
+            /* bytes 5..13 of an element in blocks of 4 bytes, 2 per table: from the first table across the second block of
+               data into blocks that do not exist yet */
+            aid = Hstartaccess(fid, ETAG, (uint16)a0, DFACC_RDWR);
+            if (aid == FAIL)
+                return fail_op(op, "Hstartaccess");
+            if (Hseek(aid, 5, DF_START) == FAIL || Hwrite(aid, 9, PAT + g_nops) != 9) {
+                Hendaccess(aid);
+                return fail_op(op, "Hseek/Hwrite");
+            }
+            Hendaccess(aid);
             break;
         case OP_VS: {
             int32 vs = VSattach(fid, -1, "w");
